@@ -18,6 +18,12 @@ CHECKS = {
  'C19': dict(level='exploration', tech='runtime monitor: metamorphic relations (additivity, halving, monotone pairs, bounds, exact liquid values) evaluated on the real compiled and interpreted functions',
              text='Randomised exploration over times, masses, isotope tables, temperature contrasts, thicknesses, viscosities, melt fractions (incl. window edges) and model parameters; scalar and array calls.',
              note='Equalities to 4-16 ulp, monotonicity with 2 ulp slack; Arrhenius law with temperature prefactor only required to be non-increasing where (E+PV)/(RT)>1.', ref='4/C19'),
+ 'C07': dict(level='exploration', tech='runtime monitor + sanitizers: 40-digit published-compliance oracle on the real models, bit-identity across call paths and OpenMP thread counts, ASan+UBSan OpenMP build of the generated C for the array paths',
+             text='Randomised exploration over the full (frequency, modulus, viscosity, alpha, zeta, Voigt offset) ranges and branch boundaries for all 7 models and aliases; passivity and |M|<=mu asserted on every evaluation; thread-count independence decided behaviourally (bit-identical digests for 1/2/4/16 threads and 7 array lengths); memory safety of the prange paths by a gcc ASan+UBSan build incl. mismatched lengths.',
+             note='libgomp is uninstrumented so TSan is not used; races that do not change output bits are not observable. One open known finding (legacy Andrade/Sundberg clamp).', ref='4/C07'),
+ 'C20': dict(level='exploration', tech='runtime monitor + sanitizer: 60-digit mpmath references and C99 Annex G tables against the real compiled helpers; UBSan+ASan build of the generated C under the same workload',
+             text='Stratified random exploration of the full exponent range (subnormal..overflow, axes, branch cuts), integer powers -200..200, all special-value pairs, all accepted double-factorial arguments; errors measured norm-wise in ulp of the exact value.',
+             note='pow budgets are condition-number based (assumption listed in evidence). Seven open known findings, all in .pyx files that cannot be rebuilt here.', ref='4/C20'),
 }
 NA = []
 def main():
